@@ -1018,7 +1018,7 @@ func (it *k4interp) eval1(fr *k4frame, v ssa.Value) (k4val, error) {
 				return r, err
 			}
 		}
-		if cal != nil && cal.Blocks != nil && ((it.inline != nil && it.inline(cal)) || (isNewHelper(cal) && !it.onStack(cal))) {
+		if cal != nil && cal.Blocks != nil && ((it.inline != nil && it.inline(cal)) || (k4WrapperInline != nil && k4WrapperInline(cal) && !it.onStack(cal)) || (isNewHelper(cal) && !it.onStack(cal))) {
 			var args []k4val
 			for _, a := range x.Call.Args {
 				av, err := it.eval(fr, a)
